@@ -282,6 +282,80 @@ impl<K: Ord, V: Val<A>, A: Ord + Hash + Clone> Map<K, V, A> {
     }
 //@end
 
+//@extract fn src/map.rs "Map" is_empty
+    pub fn is_empty(&self) -> /*@ (r: @*/ ReadCtx<bool, A> /*@ ) @*/
+    //@ requires actor_ok::<A>(), clone_ok::<A>(), actor_ok::<K>(),
+    //@ ensures r.add_clock@ == self.cl(), r.rm_clock@ == self.cl(), r.val == (forall|k: K| !self.has(k)),
+    {
+        //@ proof { lemma_map_len0(self.entries@); if forall|k: K| !self.has(k) { assert forall|k: K| !self.entries@.contains_key(k) by { assert(!self.has(k)); } } if forall|k: K| !self.entries@.contains_key(k) { assert forall|k: K| !self.has(k) by { assert(!self.entries@.contains_key(k)); } } }
+        ReadCtx {
+            add_clock: self.clock.clone(),
+            rm_clock: self.clock.clone(),
+            val: self.entries.is_empty(),
+        }
+    }
+//@end
+
+//@extract fn src/map.rs "Map" len
+    pub fn len(&self) -> /*@ (r: @*/ ReadCtx<usize, A> /*@ ) @*/
+    //@ requires actor_ok::<A>(), clone_ok::<A>(), actor_ok::<K>(),
+    //@ ensures r.add_clock@ == self.cl(), r.rm_clock@ == self.cl(), r.val == self.keys_dom().len(),
+    {
+        ReadCtx {
+            add_clock: self.clock.clone(),
+            rm_clock: self.clock.clone(),
+            val: self.entries.len(),
+        }
+    }
+//@end
+
+//@extract fn src/map.rs "Map" get
+    pub fn get(&self, key: &K) -> /*@ (r: @*/ ReadCtx<Option<V>, A> /*@ ) @*/
+    //@ requires actor_ok::<A>(), clone_ok::<A>(), actor_ok::<K>(), clone_ok::<V>(),
+    //@ ensures
+    //@     // C07: add context = map clock; remove context = exactly the key's entry clock (empty iff absent); the value under the key
+    //@     r.add_clock@ == self.cl(), r.rm_clock@ == self.ec(*key),
+    //@     r.val is Some <==> self.has(*key), self.has(*key) ==> r.val == Some(self.val(*key)),
+    {
+        let add_clock = self.clock.clone();
+        let entry_opt = self.entries.get(key);
+        ReadCtx {
+            add_clock,
+            rm_clock: entry_opt
+                .map(|map_entry /*@ : &Entry<V, A> @*/ | /*@ -> (c: VClock<A>) ensures c@ == map_entry.clock@ { @*/ map_entry.clock.clone() /*@ } @*/ )
+                .unwrap_or_default(),
+            val: entry_opt.map(|map_entry /*@ : &Entry<V, A> @*/ | /*@ -> (v: V) requires clone_ok::<V>() ensures v == map_entry.val { let v2 = @*/ map_entry.val.clone() /*@ ; proof { assert(cloned(map_entry.val, v2)); } v2 } @*/ ),
+        }
+    }
+//@end
+
+//@extract fn src/map.rs "Map" rm
+    pub fn rm(&self, key: impl Into<K>, ctx: RmCtx<A>) -> /*@ (r: @*/ Op<K, V, A> /*@ ) @*/
+    //@ requires actor_ok::<K>(),
+    //@ ensures r is Rm, r->clock == ctx.clock, r->keyset@.len() == 1,
+    {
+        let mut keyset = BTreeSet::new();
+        keyset.insert(key.into());
+        Op::Rm {
+            clock: ctx.clock,
+            keyset,
+        }
+    }
+//@end
+
+//@extract fn src/map.rs "Map" read_ctx
+    pub fn read_ctx(&self) -> /*@ (r: @*/ ReadCtx<(), A> /*@ ) @*/
+    //@ requires actor_ok::<A>(), clone_ok::<A>(),
+    //@ ensures r.add_clock@ == self.cl(), r.rm_clock@ == self.cl(),
+    {
+        ReadCtx {
+            add_clock: self.clock.clone(),
+            rm_clock: self.clock.clone(),
+            val: (),
+        }
+    }
+//@end
+
 //@extract fn src/map.rs "Map" apply_deferred
     fn apply_deferred(&mut self)
     //@ requires mbase_ok::<K, V, A>(), old(self).wf(),
@@ -531,6 +605,14 @@ proof fn lemma_up_fin<K: Ord, V: Val<A>, A: Ord + Hash>(pre: Map<K, V, A>, mid: 
     }
     assert(o is Up && cnt(pre.cl(), o->dot.actor) < o->dot.counter);
     assert(apply_post_map(pre, o, fin));
+}
+
+pub proof fn lemma_map_len0<K, T>(m: SMap<K, T>)
+    ensures (m.len() == 0) <==> (forall|k: K| !m.contains_key(k)), m.is_empty() <==> (forall|k: K| !m.contains_key(k)),
+{
+    if m.is_empty() { assert forall|k: K| !m.contains_key(k) by { assert(!m.dom().contains(k)); } }
+    if m.len() == 0 { m.dom().lemma_len0_is_empty(); assert forall|k: K| !m.contains_key(k) by { assert(!m.dom().contains(k)); } }
+    if forall|k: K| !m.contains_key(k) { assert(m.dom() =~= SSet::<K>::empty()); }
 }
 
 spec fn kcovered_upto<K: Ord, A: Ord>(vs: Seq<(VClock<A>, BTreeSet<K>)>, idx: int, m: K, a: A, n: u64) -> bool {
